@@ -80,6 +80,36 @@ def observe (payloads : List Bytes) : String := observeWith bumpEntry payloads
     about the route SET, so both are admissible here (`anyof`). -/
 def admissible (a b : String) : String := if a == b then a else s!"anyof {a} | {b}"
 
+/-- B after an announcement followed by a withdrawal: what it learned minus the CIDR routes of
+    the same origin whose network it was told to remove -/
+def observeWithdraw (annPayloads wdPayloads : List Bytes) : String :=
+  let stepA := fun (acc : Nat × Nat × List (Bytes × Entry)) (p : Bytes) =>
+    let (d, e, l) := acc
+    match deliver p with
+    | none => (d + 1, e, l)
+    | some q =>
+      match decodeRouteAdvertise q with
+      | none => (d, e + 1, l)
+      | some a => (d, e, l ++ (a.2.2.2.1.filterMap classify).map fun en => (a.1, bumpEntry en))
+  let (d1, e1, learned) := annPayloads.foldl stepA (0, 0, [])
+  let stepW := fun (acc : Nat × Nat × List (Bytes × Nat × Bytes)) (p : Bytes) =>
+    let (d, e, l) := acc
+    match deliver p with
+    | none => (d + 1, e, l)
+    | some q =>
+      match decodeRouteWithdraw q with
+      | none => (d, e + 1, l)
+      | some w => (d, e, l ++ (w.2.2.1.filterMap toIPNet).filterMap fun en =>
+          match en with
+          | .cidr _ plen ip _ => some (w.1, plen, ip)
+          | _ => none)
+  let (d2, e2, removed) := wdPayloads.foldl stepW (0, 0, [])
+  let kept := learned.filter fun (o, en) =>
+    match en with
+    | .cidr _ plen ip _ => !(removed.contains (o, plen, ip))
+    | _ => true
+  report (d1 + d2) (e1 + e2) (kept.map fun (o, en) => render o en)
+
 structure Group where
   origin : Bytes
   name : Bytes
@@ -110,6 +140,11 @@ def step (line : String) : String :=
   | "announce" :: s :: n :: r =>
     match bytesOfHex s, bytesOfHex n, parseEntries r with
     | some self, some name, some (es, []) => observe (announceLocal self name 0 es)
+    | _, _, _ => "bad-op"
+  | "withdraw" :: s :: n :: r =>
+    match bytesOfHex s, bytesOfHex n, parseEntries r with
+    | some self, some name, some (es, []) =>
+      observeWithdraw (announceLocal self name 0 es) (withdrawLocal self es.length (es.filter isCidr))
     | _, _, _ => "bad-op"
   | "replay" :: s :: n :: r =>
     match bytesOfHex s, bytesOfHex n, parseEntries r with
@@ -151,6 +186,15 @@ def spec (line implOut : String) : String :=
     | some self, some name, some (es, []) =>
       if es.all entryWF && name.length < 256 then
         verdict "announce" ((es ++ [Entry.agent self 0]).map fun e => render self (bumpEntry e)) implOut
+      else "ok"
+    | _, _, _ => "bad-op"
+  | "withdraw" :: s :: n :: r =>
+    -- after announce + withdraw the neighbour holds the non-CIDR routes and the presence route only
+    match bytesOfHex s, bytesOfHex n, parseEntries r with
+    | some self, some name, some (es, []) =>
+      if es.all entryWF && name.length < 256 then
+        verdict "withdraw" (((es.filter fun e => !isCidr e) ++ [Entry.agent self 0]).map fun e =>
+          render self (bumpEntry e)) implOut
       else "ok"
     | _, _, _ => "bad-op"
   | "replay" :: s :: n :: r =>
